@@ -5,6 +5,7 @@ package chain
 // Exports for the verification harness (compiled only with -tags verif through the overlay).
 
 import (
+	"github.com/aergoio/aergo/v2/pkg/component"
 	"github.com/aergoio/aergo-lib/db"
 	"github.com/aergoio/aergo/v2/config"
 	"github.com/aergoio/aergo/v2/state"
@@ -134,4 +135,12 @@ func VerifCheckHardforkAtStart(cfg *config.Config) (err error) {
 		return err
 	}
 	return cs.checkHardfork()
+}
+
+// VerifSignVerifyTx is the verdict of the block path's signature check for one transaction of a received block, with the
+// pool short cut switched on as in a running node; comm answers the pool's existence query.
+func (cs *ChainService) VerifSignVerifyTx(comm component.IComponentRequester, tx *types.Tx) (hit bool, err error) {
+	sv := NewSignVerifier(comm, cs.sdb, 1, true)
+	defer sv.Stop()
+	return sv.verifyTx(comm, tx, true)
 }
